@@ -990,6 +990,12 @@ def static_checks(tier, seed):
         ncases=1 if tier == "quick" else 2)
     violations += v2
     report["real_sigkill_runs"] = rep2
+    # real files that the OS stops from growing (full disk / quota): failing
+    # writes at high offsets while low offsets still succeed
+    v3, rep3 = fidelity.real_full_disk_cases(
+        os.environ.get("OQUPY_SRC", "/repo"), here, tier=tier)
+    violations += v3
+    report["real_full_disk_runs"] = rep3
     return {"violations": violations, "report": report}
 
 
